@@ -267,7 +267,7 @@ func c01R3(p *core.Program, r *core.Report, w *core.Func) {
 	// which operand is which
 	nameOp, pkgOps := -1, map[int]bool{}
 	for i, o := range ops {
-		if fld := core.FieldOf(info, o); fld != nil && fld.Name() == "name" && core.SameRef(info, o.(*ast.SelectorExpr).X, recvIdent(w)) {
+		if fld := core.FieldOf(info, o); isRole(p, fld, "file.name") && core.SameRef(info, o.(*ast.SelectorExpr).X, recvIdent(w)) {
 			nameOp = i
 		}
 		e, _ := core.Resolve(info, w.Body, o)
@@ -370,7 +370,7 @@ func c01R4(p *core.Program, r *core.Report, w *core.Func, parse *ast.CallExpr) {
 	bodyOK := false
 	for _, x := range ws {
 		if x.kind == "body" {
-			if fld := core.FieldOf(info, x.call.Args[1]); fld != nil && fld.Name() == "body" && core.SameRef(info, x.call.Args[1].(*ast.SelectorExpr).X, recvIdent(w)) {
+			if fld := core.FieldOf(info, x.call.Args[1]); isRole(p, fld, "file.body") && core.SameRef(info, x.call.Args[1].(*ast.SelectorExpr).X, recvIdent(w)) {
 				bodyOK = true
 			}
 		}
@@ -379,7 +379,7 @@ func c01R4(p *core.Program, r *core.Report, w *core.Func, parse *ast.CallExpr) {
 	swOK := false
 	if iw != nil {
 		for _, c := range core.CallsTo(iw.Info(), iw.Body, true, core.G("pkg/gengo.NewSnippetWriter")) {
-			if fld := core.FieldOf(iw.Info(), c.Args[0]); fld != nil && fld.Name() == "body" && core.SameRef(iw.Info(), c.Args[0].(*ast.SelectorExpr).X, recvIdent(iw)) {
+			if fld := core.FieldOf(iw.Info(), c.Args[0]); isRole(p, fld, "file.body") && core.SameRef(iw.Info(), c.Args[0].(*ast.SelectorExpr).X, recvIdent(iw)) {
 				swOK = true
 			}
 		}
@@ -401,7 +401,7 @@ func c01R4(p *core.Program, r *core.Report, w *core.Func, parse *ast.CallExpr) {
 				}
 			case *ast.AssignStmt:
 				for _, l := range x.Lhs {
-					if fld := core.FieldOf(finfo, l); fld != nil && fld.Name() == "body" && core.NamedTypeName(fld.Type()) == "bytes.Buffer" {
+					if fld := core.FieldOf(finfo, l); isRole(p, fld, "file.body") && core.NamedTypeName(fld.Type()) == "bytes.Buffer" {
 						stores++
 					}
 				}
@@ -467,7 +467,7 @@ func c01R4(p *core.Program, r *core.Report, w *core.Func, parse *ast.CallExpr) {
 		r.Bad(rule, rf, "fragments are appended verbatim", rf.Node().Pos(), "Render does not write to its writer")
 	}
 	// Context.Render / RenderT forward to the file's writer
-	for _, name := range []string{"(*gengoCtx).Render", "(*gengoCtx).RenderT"} {
+	for _, name := range []string{"(*" + ctxTypeName(p) + ").Render", "(*" + ctxTypeName(p) + ").RenderT"} {
 		f := p.FuncByName("pkg/gengo", name)
 		if f == nil {
 			r.Anchor(rule, "pkg/gengo."+name)
@@ -476,7 +476,7 @@ func c01R4(p *core.Program, r *core.Report, w *core.Func, parse *ast.CallExpr) {
 		ok := false
 		for _, c := range core.Calls(f.Body, true) {
 			if strings.HasSuffix(core.CalleeName(f.Info(), c), "SnippetWriter).Render") {
-				if fld := core.FieldOf(f.Info(), recvOf(c)); fld != nil && fld.Name() == "genfile" {
+				if fld := core.FieldOf(f.Info(), recvOf(c)); isRole(p, fld, "ctx.genfile") {
 					ok = true
 				}
 			}
